@@ -121,7 +121,7 @@ class Server:
                     self.send(b'ACK [5@%d] {%s} failing\n' % (k, c.split()[0]))
                     self.requests.append(('list', cmds, k))
                     return
-                self.send(b'id: ' + c + b'\nlist_OK\n')
+                self.send(b'id: ' + c + (b'\nbinary: 2\nXY' if c.startswith(b'b') else b'') + b'\nlist_OK\n')
             self.send(b'OK\n')
             self.requests.append(('list', cmds, None))
             return
@@ -139,7 +139,7 @@ class Server:
         elif line.startswith(b'f'):
             self.send(b'ACK [5@0] {%s} failing\n' % line.split()[0])
         else:
-            self.send(b'id: ' + line + b'\nOK\n')
+            self.send(b'id: ' + line + (b'\nbinary: 2\nXY' if line.startswith(b'b') else b'') + b'\nOK\n')
         self.requests.append(('cmd', [line], None))
 
 class Caller:
@@ -193,6 +193,8 @@ class Session:
             if r.variant == 'Ready':
                 break
         else:
+            if getattr(self, 'connect_may_hang', False):
+                return None                 # (the password families judge a handshake that never completes themselves)
             raise InternalError('connect does not finish')
         res = r.fields[0]
         self.connect_result = res
@@ -594,7 +596,13 @@ def frame_fields(f):
         if e.variant == 'Some':
             k, v = e.fields[0].items
             out.append((bytes(as_items(k)), bytes(as_items(v))))
+    b = f.field('binary')
+    if b.variant == 'Some':
+        out.append((b'#binary', bytes(as_items(b.fields[0]))))
     return out
+
+def _frame_of(nm):
+    return [(b'id', nm)] + ([(b'#binary', b'XY')] if nm.startswith(b'b') else [])
 
 def expected_reply(req):
     """what the simulated server answers to request `req`"""
@@ -604,7 +612,7 @@ def expected_reply(req):
             return ('ack', 50, 0, nm, [])
         if nm.startswith(b'f'):
             return ('ack', 5, 0, nm, [])
-        return ('frame', [(b'id', nm)])
+        return ('frame', _frame_of(nm))
     if req[0] == 'list':
         frames = []
         if len(req[1]) == 1:
@@ -613,13 +621,13 @@ def expected_reply(req):
                 return ('ack', 50, 0, nm, [])
             if nm.startswith(b'f'):
                 return ('ack', 5, 0, nm, [])
-            return ('frames', [[(b'id', nm)]])
+            return ('frames', [_frame_of(nm)])
         for k, nm in enumerate(req[1]):
             if nm.startswith(b'p'):
                 return ('ack', 50, k, nm, frames)
             if nm.startswith(b'f'):
                 return ('ack', 5, k, nm, frames)
-            frames.append([(b'id', nm)])
+            frames.append(_frame_of(nm))
         return ('frames', frames)
     if req[0] == 'typed':
         return ('typed', [(k, [(b'id', nm)]) for k, nm in enumerate(req[1])])
